@@ -133,21 +133,31 @@ fn recaps(w: &mut World, _last: &Op) {
     for j in 0..n {
         originals.extend(w.menu_under(j, false));
     }
+    // the long-lived originals (re-encapsulated after every earlier operation of the history)
+    for e in &w.recaps_longlived {
+        originals.push(crate::world::EncEntry { enc: e.enc.clone(), secret: e.secret.clone(), model: e.model.clone(), mpk: e.mpk, policy: format!("{} (long-lived)", e.policy) });
+    }
     let before_m = ser(&w.msk);
     for orig in &originals {
         for &j in &js {
-            let open: BTreeSet<RightM> = orig.model.targets.iter().filter(|(r, v)| w.model.master.get(r).is_some_and(|c| c.iter().any(|e| e.ver == *v))).map(|(r, _)| r.clone()).collect();
+            let open: BTreeSet<RightM> = orig.model.targets.iter().filter(|(r, v)| w.model.master.get(r).is_some_and(|c| c.iter().any(|e| e.ver == *v && (e.hybrid || !orig.model.hybrid)))).map(|(r, _)| r.clone()).collect();
             let pubj = w.mpks[j].model.clone();
             let pubj = &pubj;
             let wide: BTreeSet<RightM> = open.iter().filter(|r| pubj.keys.contains_key(*r)).cloned().collect();
             let strict: BTreeSet<RightM> = wide.iter().filter(|r| w.model.master[*r][0].activated).cloned().collect();
+            // a given public key that lacks one of the rights the master key recovers and still
+            // publishes (it predates the right) cannot target exactly those rights: an error is
+            // within the statement then (a success is still checked against the rights it has)
+            let stale_pk = open.iter().any(|r| w.model.master[r][0].activated && !pubj.keys.contains_key(r));
             let desc = format!("recaps(original {:?} made under public key {}, public key {j})", orig.policy, orig.mpk);
             let r = catch_unwind(AssertUnwindSafe(|| w.cc.recaps(&w.msk, &w.mpks[j].mpk, &orig.enc)));
             w.bump("recaps");
             match r {
                 Err(_) => w.fail("C09.p", format!("{desc}: panicked")),
                 Ok(Err(e)) => {
-                    if !strict.is_empty() {
+                    if stale_pk {
+                        w.bump("recaps_err_stale_public_key");
+                    } else if !strict.is_empty() {
                         let names: Vec<String> = strict.iter().map(|r| w.show_right(r)).collect();
                         w.fail("C18.c", format!("{desc}: failed ({e}) although the master key can still open and publish {names:?}"));
                     } else {
@@ -186,7 +196,9 @@ fn recaps(w: &mut World, _last: &Op) {
                     }
                     for k in 0..w.usks.len() {
                         let held = w.usks[k].model.held.clone();
-                        let holds = |set: &BTreeSet<RightM>| set.iter().any(|r| held.get(r).is_some_and(|h| h.contains(&pubj.keys[r].0)));
+                        let classic = w.usks[k].model.classic.clone();
+                        let hybrid_new = strict.iter().all(|r| pubj.keys[r].1);
+                        let holds = |set: &BTreeSet<RightM>| set.iter().any(|r| held.get(r).is_some_and(|h| h.contains(&pubj.keys[r].0)) && !(hybrid_new && classic.contains(&(r.clone(), pubj.keys[r].0))));
                         let must = holds(&strict);
                         let may = must;
                         let _ = &wide;
